@@ -1,1 +1,2 @@
 import EmdProps.C20
+import EmdProps.C01
